@@ -4,8 +4,8 @@ import KrroodVerif.Drive.SG
 /-!
 C14 driver. Case: `(h <op> …)`. Observation: the relation triples among live instances and the contents of the
 managed fields of live instances, or `exc` when an assertion raised.
-`model=` the code as it is (`remove_node` repaired, F-C14-1 fixed by c18b52a; F-C14-2 open), `model_repaired=` every quirk
-off, `spec=` the history read at the level of objects (`specRun`), which by `C14_fresh_equiv` is what the same
+`model=` the code as it is (`remove_node` repaired, F-C14-1 fixed by c18b52a; dead neighbours left out of the transitive
+inference, F-C14-2 fixed), `model_repaired=` every quirk off, `spec=` the history read at the level of objects (`specRun`), which by `C14_fresh_equiv` is what the same
 assertions give on a fresh graph.
 -/
 namespace KrroodVerif.Drive.C14
@@ -31,8 +31,9 @@ def run (s : Sexp) : String :=
       let m := sk (aliased st.h) (showObs st.relObs)
       let mr := sk (aliased str.h) (showObs str.relObs)
       let sp := sk (aliased sps.h) (showObs sps.relObs)
-      let trig := joinTrig [(st.deadHit, "F-C14-2")]
-      s!"model={m}\tspec={sp}\ttrig={trig}\tmodel_repaired={mr}"
+      -- (F-C14-2, a dead unswept instance met by the transitive inference, is repaired in /repo: no case is attributed
+      -- to it any more; C14 has no open finding)
+      s!"model={m}\tspec={sp}\ttrig=\tmodel_repaired={mr}"
     | none => "error=bad-case"
   | _ => "error=bad-case"
 end KrroodVerif.Drive.C14
